@@ -4,8 +4,12 @@ import archdispatch
 import archlib
 
 ID = "C07"
-PROOF_MODULES = ["PyribsProofs.C07", "PyribsProofs.C15", "PyribsProofs.C15b", "PyribsProofs.C14b"]
+PROOF_MODULES = ["PyribsProofs.C07", "PyribsProofs.C07c", "PyribsProofs.C15", "PyribsProofs.C15b", "PyribsProofs.C14b"]
 THEOREMS = [
+    "Pyribs.C07c.exact_admissible",
+    "Pyribs.C07c.admissible_sandwich",
+    "Pyribs.C07c.admissible_zero",
+    "Pyribs.C07c.nonvacuous",
     "Pyribs.C07.placed_addBatch",
     "Pyribs.C07.placed_addSingle",
     "Pyribs.C07.placement_invariant",
